@@ -8,6 +8,7 @@ import (
 	"time"
 
 	ouroboros "github.com/blinklabs-io/gouroboros"
+	"github.com/blinklabs-io/gouroboros/connection"
 	"github.com/blinklabs-io/gouroboros/muxer"
 	"github.com/blinklabs-io/gouroboros/protocol"
 	hs "github.com/blinklabs-io/gouroboros/protocol/handshake"
@@ -235,7 +236,8 @@ func newDirect(conn *rawpeer.FragConn, mode protocol.ProtocolMode, server bool, 
 			return nil
 		}),
 	)
-	po := protocol.ProtocolOptions{Muxer: d.Mux, ErrorChan: d.ErrCh, Mode: mode}
+	po := protocol.ProtocolOptions{Muxer: d.Mux, ErrorChan: d.ErrCh, Mode: mode,
+		ConnectionId: connection.ConnectionId{LocalAddr: conn.LocalAddr(), RemoteAddr: conn.RemoteAddr()}}
 	if server {
 		po.Role = protocol.ProtocolRoleServer
 		d.Server = hs.NewServer(po, &cfg)
